@@ -370,32 +370,393 @@ Proof.
     pose proof (Z.square_nonneg x); pose proof (Z.square_nonneg y); pose proof (Z.square_nonneg z) end. lia.
 Qed.
 
-Lemma scaled_lt (x n a P Q : Z) : 0 < a -> 0 < P -> x * x <= n -> P <= Q -> 4 * n * Q < a * a * P -> 2 * Z.abs x < a.
+Lemma scaled_lt (x n a P Q : Z) : 0 < a -> 0 < P -> x * x <= n -> P * P <= Q ->
+  4 * n * Q < (a * P) * (a * P) -> 2 * Z.abs x < a.
 Proof.
   intros Ha HP Hx HPQ H. apply sq_lt_abs; [assumption|].
-  assert (0 <= n) by (pose proof (Z.square_nonneg x); lia).
-  assert (4 * (x * x) * P < a * a * P) by nia.
-  nia.
+  assert (Hn : 0 <= n) by (pose proof (Z.square_nonneg x); lia).
+  assert (HPP : 0 < P * P) by nia.
+  assert (H1 : 4 * (x * x) * (P * P) <= 4 * n * (P * P)) by (apply Z.mul_le_mono_nonneg_r; lia).
+  assert (H2 : 4 * n * (P * P) <= 4 * n * Q) by (apply Z.mul_le_mono_nonneg_l; lia).
+  assert (H3 : 4 * (x * x) * (P * P) < (a * a) * (P * P)).
+  { replace (a * a * (P * P)) with (a * P * (a * P)) by ring. lia. }
+  apply Z.mul_lt_mono_pos_r in H3; assumption.
 Qed.
+
+Ltac sq3 := match goal with |- ?P * ?P <= ?A * ?A + ?B * ?B + ?C * ?C =>
+    pose proof (Z.square_nonneg A); pose proof (Z.square_nonneg B); pose proof (Z.square_nonneg C) end.
 
 (* a vector shorter than half of every cell width lies strictly inside the wrap region *)
 Lemma half_width_strict B v : lower_tri_pos B -> below_half_widths B v -> strict_region B v.
 Proof.
-  intros HB (H1 & H2 & H3). destruct (width_le_diag B HB) as (Hv & _).
+  intros HB (H1 & H2 & H3).
   destruct (norm2_ge_comp v) as (Nx & Ny & Nz).
-  destruct HB as [Hl Hd]. unfold vol in *. dall. vunf. bools. subst.
-  match goal with Ha : 0 < ?ax, Hb : 0 < ?by_, Hc : 0 < ?cz |- 2 * Z.abs ?x < ?ax /\ 2 * Z.abs ?y < ?by_ /\ 2 * Z.abs ?z < ?cz =>
-    set (n := x * x + y * y + z * z) in *;
-    assert (0 < by_ * cz) by nia; assert (0 < ax * cz) by nia; assert (0 < ax * by_) by nia;
-    repeat split
+  destruct HB as [Hl Hd]. unfold vol in *.
+  destruct B as [[[ax ay] az] [[bx by_] bz] [[cx cy] cz]], v as [[x y] z].
+  vunf. bools. subst.
+  assert (0 < by_ * cz) by nia. assert (0 < ax * cz) by nia. assert (0 < ax * by_) by nia.
+  repeat split.
+  - match type of H1 with 4 * ?n * ?Q < _ => apply (scaled_lt x n ax (by_ * cz) Q); try assumption end.
+    + sq3. match goal with |- ?P * ?P <= ?A * ?A + _ + _ => replace (A * A) with (P * P) by ring end. lia.
+    + eapply Z.lt_le_trans; [exact H1 | apply Z.eq_le_incl; ring].
+  - match type of H2 with 4 * ?n * ?Q < _ => apply (scaled_lt y n by_ (ax * cz) Q); try assumption end.
+    + sq3. match goal with |- ?P * ?P <= _ + ?A * ?A + _ => replace (A * A) with (P * P) by ring end. lia.
+    + eapply Z.lt_le_trans; [exact H2 | apply Z.eq_le_incl; ring].
+  - match type of H3 with 4 * ?n * ?Q < _ => apply (scaled_lt z n cz (ax * by_) Q); try assumption end.
+    + sq3. match goal with |- ?P * ?P <= _ + _ + ?A * ?A => replace (A * A) with (P * P) by ring end. lia.
+    + eapply Z.lt_le_trans; [exact H3 | apply Z.eq_le_incl; ring].
+Qed.
+
+(* ------------------------------------------------------------------ minimality in the half-width range *)
+(* If SOME image v of r is shorter than half of every cell width, then the triclinic code returns exactly
+   v, and v is the shortest of all images. *)
+Lemma tric_minimal_halfwidth_gen rn B r n c : is_rounding rn -> lower_tri_pos B ->
+  tric_result rn B r c ->
+  let v := vadd r (comb B n) in
+  below_half_widths B v ->
+  snd c = v /\ forall n', norm2 v <= norm2 (vadd r (comb B n')).
+Proof.
+  intros Hr HB Hc v Hw.
+  destruct (reduce_keeps_shape rn B HB) as (HB' & Dx & Dy & Dz).
+  set (B' := reduce rn B) in *.
+  (* any image below the half widths is the wrapped vector *)
+  assert (Hkey : forall m, below_half_widths B (vadd r (comb B m)) -> wrap rn B' r = vadd r (comb B m)).
+  { intros m Hm. pose proof (half_width_strict B _ HB Hm) as Hs.
+    assert (Hs' : strict_region B' (vadd r (comb B m))) by (unfold strict_region in *; rewrite Dx, Dy, Dz; exact Hs).
+    rewrite (reduce_comb_inv rn B m) in Hs' |- *. apply wrap_hits_strict; assumption. }
+  pose proof (Hkey n Hw) as Ew. fold v in Ew.
+  destruct Hc as (Ho & Ec & Hmin). cbv zeta in Ec, Hmin. fold B' in Ec, Hmin. rewrite Ew in Ec, Hmin.
+  (* the result is no longer than candidate (0,0,0) = v *)
+  assert (Hle : norm2 (snd c) <= norm2 v).
+  { specialize (Hmin vzero). rewrite comb_zero, vadd_zero in Hmin. apply Hmin. apply in_offsets27. cbn. lia. }
+  (* monotonicity: anything not longer than v is also below the half widths *)
+  assert (Hmono : forall u, norm2 u <= norm2 v -> below_half_widths B u).
+  { intros u Hu. destruct Hw as (W1 & W2 & W3). unfold below_half_widths.
+    assert (forall Q, 0 <= Q -> 4 * norm2 v * Q < vol B * vol B -> 4 * norm2 u * Q < vol B * vol B).
+    { intros Q HQ HH. eapply Z.le_lt_trans; [|exact HH]. apply Z.mul_le_mono_nonneg_r; lia. }
+    assert (forall w, 0 <= norm2 w).
+    { intros w. destruct (norm2_ge_comp w) as (N1 & _). pose proof (Z.square_nonneg (vx w)). lia. }
+    repeat split; auto. }
+  (* the result is an image of r in the original cell, and below the half widths, hence equals v *)
+  assert (Eimg : snd c = vadd r (comb B (vadd n (to_orig (reduce_mult rn B) (fst c))))).
+  { rewrite Ec. unfold v. rewrite comb_add, <- vadd_assoc. f_equal. fold B'. unfold B'. apply reduce_comb. }
+  split.
+  - pose proof (Hkey _ ltac:(rewrite <- Eimg; apply Hmono; exact Hle)) as E2. rewrite <- Eimg in E2.
+    rewrite <- E2. exact Ew.
+  - intros n'. destruct (Z_le_gt_dec (norm2 v) (norm2 (vadd r (comb B n')))) as [|Hgt]; [assumption|exfalso].
+    pose proof (Hkey n' ltac:(apply Hmono; lia)) as E3. rewrite Ew in E3. rewrite <- E3 in Hgt. lia.
+Qed.
+
+(* ------------------------------------------------------------------ lattice-shift invariance *)
+(* Adding any lattice vector of the cell to the separation (= moving either atom by a lattice vector)
+   leaves the triclinic result unchanged, unless the wrapped vector lies on the boundary of the wrap
+   region, i.e. a rounding tie occurred. *)
+Lemma tric_last_shift_invariant rn B r t : is_rounding rn -> lower_tri_pos B ->
+  strict_region (reduce rn B) (wrap rn (reduce rn B) r) ->
+  snd (tric_last rn B (vadd r (comb B t))) = snd (tric_last rn B r).
+Proof.
+  intros Hr HB Hs. destruct (reduce_keeps_shape rn B HB) as (HB' & _).
+  unfold tric_last. cbv zeta. rewrite (reduce_comb_inv rn B t).
+  rewrite wrap_shift_invariant by assumption. reflexivity.
+Qed.
+
+Lemma tric_first_shift_invariant rn B r t : is_rounding rn -> lower_tri_pos B ->
+  strict_region (reduce rn B) (wrap rn (reduce rn B) r) ->
+  snd (tric_first rn B (vadd r (comb B t))) = snd (tric_first rn B r).
+Proof.
+  intros Hr HB Hs. destruct (reduce_keeps_shape rn B HB) as (HB' & _).
+  unfold tric_first. cbv zeta. rewrite (reduce_comb_inv rn B t).
+  rewrite wrap_shift_invariant by assumption. reflexivity.
+Qed.
+
+Lemma mic1_shift rn r L k : is_rounding rn -> 0 < L -> 2 * Z.abs (mic1 rn r L) < L ->
+  mic1 rn (r + k * L) L = mic1 rn r L.
+Proof.
+  intros Hr HL Hs. unfold mic1 in *.
+  pose proof (Hr (r + k * L) L HL) as H2.
+  assert (E : rn r L = rn (r + k * L) L - k).
+  { apply (quot_unique r L); try assumption.
+    replace (r - (rn (r + k * L) L - k) * L) with (r + k * L - rn (r + k * L) L * L) by ring. exact H2. }
+  rewrite E. ring.
+Qed.
+
+Lemma ortho_shift_invariant rn B r t : is_rounding rn -> ortho_pos B ->
+  strict_region B (mic_ortho rn B r) -> mic_ortho rn B (vadd r (comb B t)) = mic_ortho rn B r.
+Proof.
+  intros Hr [Ho Hd] Hs. unfold mic_ortho in *.
+  destruct B as [[[ax ay] az] [[bx by_] bz] [[cx cy] cz]], r as [[x y] z], t as [[i j] k].
+  vunf. bools. subst. destruct Hs as (Sx & Sy & Sz).
+  replace (x + (i * ax + j * 0 + k * 0)) with (x + i * ax) by ring.
+  replace (y + (i * 0 + j * by_ + k * 0)) with (y + j * by_) by ring.
+  replace (z + (i * 0 + j * 0 + k * cz)) with (z + k * cz) by ring.
+  rewrite !mic1_shift by assumption. reflexivity.
+Qed.
+
+(* ------------------------------------------------------------------ the two code paths agree *)
+Lemma reduce_mode_indep rn1 rn2 B : is_rounding rn1 -> is_rounding rn2 -> lower_tri_pos B ->
+  (let B' := reduce rn1 B in
+   2 * Z.abs (vy (bc B')) < vy (bb B') /\ 2 * Z.abs (vx (bc B')) < vx (ba B') /\ 2 * Z.abs (vx (bb B')) < vx (ba B')) ->
+  reduce rn2 B = reduce rn1 B.
+Proof.
+  intros H1 H2 [Hl Hd] Hs. unfold reduce in *.
+  destruct B as [[[ax ay] az] [[bx by_] bz] [[cx cy] cz]].
+  vunf. bools. subst. destruct Hs as (S1 & S2 & S3).
+  assert (E1 : rn2 cy by_ = rn1 cy by_).
+  { symmetry. apply (quot_unique cy by_); [assumption | lia | apply H2; assumption]. }
+  rewrite E1.
+  assert (E2 : rn2 (cx - rn1 cy by_ * bx) ax = rn1 (cx - rn1 cy by_ * bx) ax).
+  { symmetry. apply (quot_unique (cx - rn1 cy by_ * bx) ax); try assumption. apply H2; assumption. }
+  rewrite E2.
+  assert (E3 : rn2 bx ax = rn1 bx ax).
+  { symmetry. apply (quot_unique bx ax); try assumption. apply H2; assumption. }
+  rewrite E3. reflexivity.
+Qed.
+
+(* no rounding tie in the reduction nor in the wrap: both paths look at the same 27 candidates *)
+Definition tie_free (rn : Z -> Z -> Z) (B : box) (r : vec) : Prop :=
+  (let B' := reduce rn B in
+   2 * Z.abs (vy (bc B')) < vy (bb B') /\ 2 * Z.abs (vx (bc B')) < vx (ba B') /\ 2 * Z.abs (vx (bb B')) < vx (ba B')) /\
+  strict_region (reduce rn B) (wrap rn (reduce rn B) r).
+
+Lemma paths_same_candidates rn1 rn2 B r : is_rounding rn1 -> is_rounding rn2 -> lower_tri_pos B ->
+  tie_free rn1 B r ->
+  reduce rn2 B = reduce rn1 B /\ wrap rn2 (reduce rn2 B) r = wrap rn1 (reduce rn1 B) r.
+Proof.
+  intros H1 H2 HB [Hred Hs].
+  pose proof (reduce_mode_indep rn1 rn2 B H1 H2 HB Hred) as E. split; [exact E|]. rewrite E.
+  destruct (reduce_keeps_shape rn1 B HB) as (HB' & _).
+  apply wrap_mode_indep; assumption.
+Qed.
+
+(* distances agree whenever no rounding tie occurs *)
+Lemma paths_agree_norm rn1 rn2 B r c1 c2 : is_rounding rn1 -> is_rounding rn2 -> lower_tri_pos B ->
+  tie_free rn1 B r -> tric_result rn1 B r c1 -> tric_result rn2 B r c2 -> norm2 (snd c1) = norm2 (snd c2).
+Proof.
+  intros H1 H2 HB Ht R1 R2.
+  destruct (paths_same_candidates rn1 rn2 B r H1 H2 HB Ht) as [EB Ew].
+  destruct R1 as (O1 & E1 & M1), R2 as (O2 & E2 & M2). cbv zeta in *. rewrite EB, Ew in *.
+  pose proof (M1 _ O2) as L1. pose proof (M2 _ O1) as L2. rewrite <- E2 in L1. rewrite <- E1 in L2. lia.
+Qed.
+
+(* displacements agree when, in addition, the shortest of the 27 candidates is unique *)
+Lemma paths_agree_disp rn1 rn2 B r c1 c2 : is_rounding rn1 -> is_rounding rn2 -> lower_tri_pos B ->
+  tie_free rn1 B r -> tric_result rn1 B r c1 -> tric_result rn2 B r c2 ->
+  (forall o1 o2, In o1 offsets27 -> In o2 offsets27 ->
+     let w := wrap rn1 (reduce rn1 B) r in let B' := reduce rn1 B in
+     norm2 (vadd w (comb B' o1)) = norm2 (vadd w (comb B' o2)) ->
+     (forall o, In o offsets27 -> norm2 (vadd w (comb B' o1)) <= norm2 (vadd w (comb B' o))) -> o1 = o2) ->
+  c1 = c2.
+Proof.
+  intros H1 H2 HB Ht R1 R2 Huniq.
+  pose proof (paths_agree_norm rn1 rn2 B r c1 c2 H1 H2 HB Ht R1 R2) as En.
+  destruct (paths_same_candidates rn1 rn2 B r H1 H2 HB Ht) as [EB Ew].
+  destruct R1 as (O1 & E1 & M1), R2 as (O2 & E2 & M2). cbv zeta in *. rewrite EB, Ew in *.
+  assert (Eo : fst c1 = fst c2).
+  { apply Huniq; try assumption.
+    - rewrite <- E1, <- E2. exact En.
+    - intros o Ho. rewrite <- E1. apply M1. exact Ho. }
+  destruct c1 as [o1 v1], c2 as [o2 v2]. cbn [fst snd] in *. subst o2. rewrite E1, E2. reflexivity.
+Qed.
+
+(* ------------------------------------------------------------------ orthorhombic cell through the other paths *)
+Lemma reduce_ortho rn B : is_rounding rn -> ortho_pos B -> reduce rn B = B.
+Proof.
+  intros Hr [Ho Hd]. unfold reduce. destruct B as [[[ax ay] az] [[bx by_] bz] [[cx cy] cz]].
+  vunf. bools. subst.
+  assert (Z0 : forall d, 0 < d -> rn 0 d = 0).
+  { intros d Hd'. pose proof (Hr 0 d Hd') as Hq. destruct (Z.eq_dec (rn 0 d) 0) as [|Hn]; [assumption|exfalso].
+    assert (d <= Z.abs (rn 0 d * d)) by (rewrite Z.abs_mul, (Z.abs_eq d) by lia; assert (1 <= Z.abs (rn 0 d)) by lia; nia).
+    replace (0 - rn 0 d * d) with (- (rn 0 d * d)) in Hq by ring. rewrite Z.abs_opp in Hq. lia. }
+  rewrite (Z0 by_) by assumption. replace (0 - 0 * 0) with 0 by ring. rewrite (Z0 ax) by assumption.
+  f_equal; apply vec_ext; vunf; ring.
+Qed.
+
+Lemma wrap_ortho rn B r : ortho_pos B -> wrap rn B r = mic_ortho rn B r.
+Proof.
+  intros [Ho Hd]. unfold wrap, mic_ortho, mic1.
+  destruct B as [[[ax ay] az] [[bx by_] bz] [[cx cy] cz]], r as [[x y] z].
+  vunf. bools. subst.
+  replace (y - rn z cz * 0) with y by ring.
+  replace (x - rn z cz * 0 - rn y by_ * 0) with x by ring.
+  apply vec_ext; vunf; ring.
+Qed.
+
+(* numpy path with orthogonal=True on a truly orthorhombic cell = per-axis formula *)
+Lemma np_ortho_is_mic B r : ortho_pos B -> np_ortho B r = mic_ortho rnd_hev B r.
+Proof.
+  intros HB. unfold np_ortho. rewrite (reduce_ortho _ B rnd_hev_rounding HB). apply wrap_ortho. exact HB.
+Qed.
+
+(* an orthorhombic cell sent through the triclinic code (mixed trajectories) still gives the global minimum *)
+Lemma tric_on_ortho_minimal rn B r c n : is_rounding rn -> ortho_pos B -> tric_result rn B r c ->
+  norm2 (snd c) <= norm2 (vadd r (comb B n)).
+Proof.
+  intros Hr HB (Ho & Ec & Hmin). cbv zeta in *. rewrite (reduce_ortho rn B Hr HB) in *.
+  rewrite (wrap_ortho rn B r HB) in *.
+  specialize (Hmin vzero ltac:(apply in_offsets27; cbn; lia)). rewrite comb_zero, vadd_zero in Hmin.
+  etransitivity; [exact Hmin|]. apply ortho_minimal; assumption.
+Qed.
+
+(* ------------------------------------------------------------------ find_closest_contact (wrap only) *)
+Lemma fcc_congruent B d : fcc_disp B d = vadd d (comb B (wrap_coef rnd_hup B d)).
+Proof. apply wrap_congruent. Qed.
+
+Lemma fcc_minimal_halfwidth B d n : lower_tri_pos B ->
+  let v := vadd d (comb B n) in below_half_widths B v -> fcc_disp B d = v.
+Proof.
+  intros HB v Hw. unfold fcc_disp. apply wrap_hits_strict; [exact rnd_hup_rounding | exact HB |].
+  apply half_width_strict; assumption.
+Qed.
+
+(* ------------------------------------------------------------------ dispatch, transposes *)
+Lemma kernel_reads_rows B : kernel_box tric_idx1 tric_idx2 tric_idx3 (transpose9 (box_to_mat B)) = B.
+Proof. destruct B as [[[ax ay] az] [[bx by_] bz] [[cx cy] cz]]. reflexivity. Qed.
+
+Lemma nopbc_plain opt xyzboxes r B :
+  path_disp (dispatch opt false xyzboxes) B r = r /\ path_disp (dispatch opt true None) B r = r.
+Proof. split; reflexivity. Qed.
+
+(* ------------------------------------------------------------------ statements per code path *)
+Definition rmode_of_path (p : path) : Z -> Z -> Z :=
+  match p with POrthoSSE => rnd_htz | PTricCpp => rnd_haz | _ => rnd_hev end.
+
+Lemma path_tric_cpp B r : path_disp PTricCpp B r = snd (tric_last rnd_haz B r).
+Proof. unfold path_disp. rewrite kernel_reads_rows. reflexivity. Qed.
+
+Lemma all_paths_congruent p B r : (p = POrthoSSE -> ortho_pos B) ->
+  path_disp p B r = vadd r (comb B (path_coef p B r)).
+Proof.
+  intros Hp. destruct p.
+  - cbn [path_disp path_coef]. rewrite comb_zero, vadd_zero. reflexivity.
+  - apply ortho_congruent. apply Hp. reflexivity.
+  - rewrite path_tric_cpp. cbn [path_coef]. apply (tric_congruent_gen rnd_haz). apply tric_last_result.
+  - cbn [path_disp path_coef]. unfold np_ortho, np_ortho_coef.
+    rewrite <- reduce_comb. apply wrap_congruent.
+  - cbn [path_disp path_coef]. apply (tric_congruent_gen rnd_hev). apply tric_first_result.
+Qed.
+
+Lemma ortho_minimal_all_paths p B r n : p <> PPlain -> ortho_pos B ->
+  norm2 (path_disp p B r) <= norm2 (vadd r (comb B n)).
+Proof.
+  intros Hp HB. destruct p; [congruence | | | |].
+  - apply ortho_minimal; [exact rnd_htz_rounding | exact HB].
+  - rewrite path_tric_cpp. apply (tric_on_ortho_minimal rnd_haz); [exact rnd_haz_rounding | exact HB | apply tric_last_result].
+  - cbn [path_disp]. rewrite np_ortho_is_mic by exact HB. apply ortho_minimal; [exact rnd_hev_rounding | exact HB].
+  - apply (tric_on_ortho_minimal rnd_hev); [exact rnd_hev_rounding | exact HB | apply tric_first_result].
+Qed.
+
+Lemma ortho_paths_agree B r : ortho_pos B ->
+  norm2 (path_disp POrthoSSE B r) = norm2 (path_disp POrthoNp B r) /\
+  norm2 (path_disp POrthoSSE B r) = norm2 (path_disp PTricCpp B r) /\
+  norm2 (path_disp POrthoSSE B r) = norm2 (path_disp PTricNp B r).
+Proof.
+  intros HB.
+  assert (Hc : forall p, p <> PPlain -> path_disp p B r = vadd r (comb B (path_coef p B r))).
+  { intros p _. apply all_paths_congruent. intros _. exact HB. }
+  assert (Hm : forall p q, p <> PPlain -> q <> PPlain -> norm2 (path_disp p B r) <= norm2 (path_disp q B r)).
+  { intros p q Hp Hq. rewrite (Hc q Hq). apply ortho_minimal_all_paths; assumption. }
+  repeat split; apply Z.le_antisymm; apply Hm; discriminate.
+Qed.
+
+Lemma tric_paths_minimal_halfwidth p B r n : p = PTricCpp \/ p = PTricNp -> lower_tri_pos B ->
+  let v := vadd r (comb B n) in
+  below_half_widths B v ->
+  path_disp p B r = v /\ forall n', norm2 v <= norm2 (vadd r (comb B n')).
+Proof.
+  intros [-> | ->] HB v Hw.
+  - rewrite path_tric_cpp. apply (tric_minimal_halfwidth_gen rnd_haz); auto using rnd_haz_rounding, tric_last_result.
+  - apply (tric_minimal_halfwidth_gen rnd_hev); auto using rnd_hev_rounding, tric_first_result.
+Qed.
+
+Lemma tric_paths_agree B r : lower_tri_pos B -> tie_free rnd_haz B r ->
+  norm2 (path_disp PTricCpp B r) = norm2 (path_disp PTricNp B r) /\
+  ((forall o1 o2, In o1 offsets27 -> In o2 offsets27 ->
+      let w := wrap rnd_haz (reduce rnd_haz B) r in let B' := reduce rnd_haz B in
+      norm2 (vadd w (comb B' o1)) = norm2 (vadd w (comb B' o2)) ->
+      (forall o, In o offsets27 -> norm2 (vadd w (comb B' o1)) <= norm2 (vadd w (comb B' o))) -> o1 = o2) ->
+   path_disp PTricCpp B r = path_disp PTricNp B r).
+Proof.
+  intros HB Ht. rewrite path_tric_cpp. cbn [path_disp]. split.
+  - apply (paths_agree_norm rnd_haz rnd_hev B r); auto using rnd_haz_rounding, rnd_hev_rounding, tric_last_result, tric_first_result.
+  - intros Hu. f_equal.
+    apply (paths_agree_disp rnd_haz rnd_hev B r); auto using rnd_haz_rounding, rnd_hev_rounding, tric_last_result, tric_first_result.
+Qed.
+
+Lemma all_paths_shift_invariant p B r t :
+  match p with
+  | PPlain => True
+  | POrthoSSE => ortho_pos B -> strict_region B (path_disp p B r) -> path_disp p B (vadd r (comb B t)) = path_disp p B r
+  | _ => lower_tri_pos B ->
+         strict_region (reduce (rmode_of_path p) B) (wrap (rmode_of_path p) (reduce (rmode_of_path p) B) r) ->
+         path_disp p B (vadd r (comb B t)) = path_disp p B r
   end.
-  - match goal with |- 2 * Z.abs ?x < ?ax => match type of H1 with 4 * n * ?Q < _ =>
-      match goal with Hb : 0 < ?by_, Hc : 0 < ?cz |- _ =>
-        apply (scaled_lt x n ax ((by_ * cz) * (by_ * cz)) Q); try assumption; try nia end end end.
-  - match goal with |- 2 * Z.abs ?y < ?by_ => match type of H2 with 4 * n * ?Q < _ =>
-      match goal with Ha : 0 < ?ax, Hc : 0 < ?cz |- _ =>
-        apply (scaled_lt y n by_ ((ax * cz) * (ax * cz)) Q); try assumption; try nia end end end.
-  - match goal with |- 2 * Z.abs ?z < ?cz => match type of H3 with 4 * n * ?Q < _ =>
-      match goal with Ha : 0 < ?ax, Hb : 0 < ?by_ |- _ =>
-        apply (scaled_lt z n cz ((ax * by_) * (ax * by_)) Q); try assumption; try nia end end end.
+Proof.
+  destruct p; [exact I | | | |]; cbn [rmode_of_path].
+  - intros HB Hs. apply ortho_shift_invariant; [exact rnd_htz_rounding | exact HB | exact Hs].
+  - intros HB Hs. rewrite !path_tric_cpp. apply tric_last_shift_invariant; auto using rnd_haz_rounding.
+  - intros HB Hs. cbn [path_disp]. unfold np_ortho.
+    destruct (reduce_keeps_shape rnd_hev B HB) as (HB' & _).
+    rewrite (reduce_comb_inv rnd_hev B t). apply wrap_shift_invariant; auto using rnd_hev_rounding.
+  - intros HB Hs. cbn [path_disp]. apply tric_first_shift_invariant; auto using rnd_hev_rounding.
+Qed.
+
+(* ------------------------------------------------------------------ trajectory-level glue *)
+Lemma opt_all_nth {A : Type} (l : list (option A)) out i x :
+  opt_all l = Some out -> nth_error l i = Some (Some x) -> nth_error out i = Some x.
+Proof.
+  revert out i. induction l as [|o l IH]; intros out i E Hn.
+  - destruct i; discriminate.
+  - cbn [opt_all] in E. destruct o as [y|]; [|discriminate].
+    destruct (opt_all l) as [r'|] eqn:El; [|discriminate]. injection E as <-.
+    destruct i as [|i]; cbn [nth_error] in *.
+    + injection Hn as <-. reflexivity.
+    + apply (IH r' i eq_refl Hn).
+Qed.
+
+Lemma displacements_t_entry opt periodic xyz boxes pairs times out i j t pr f1 f2 B x1 x2 :
+  displacements_t opt periodic xyz boxes pairs times = Some out ->
+  nth_error times i = Some t -> nth_error pairs j = Some pr ->
+  nth_error xyz (fst t) = Some f1 -> nth_error xyz (snd t) = Some f2 -> box_at boxes (fst t) = Some B ->
+  nth_error f1 (fst pr) = Some x1 -> nth_error f2 (snd pr) = Some x2 ->
+  exists row, nth_error out i = Some row /\
+    nth_error row j = Some (path_disp (dispatch opt periodic boxes) B
+                              (if opt then vsub x2 x1 else vneg (vsub x2 x1))).
+Proof.
+  intros E Ht Hp Hf1 Hf2 HB Hx1 Hx2. unfold displacements_t in E.
+  set (p := dispatch opt periodic boxes) in *.
+  set (g := fun t0 : nat * nat => _) in E.
+  pose proof (map_nth_error g i times Ht) as Hg.
+  assert (Hgt : exists row, g t = Some row /\
+     nth_error row j = Some (path_disp p B (if opt then vsub x2 x1 else vneg (vsub x2 x1)))).
+  { (* every frame entry of a successful run is Some *)
+    destruct (g t) as [row|] eqn:Egt.
+    - exists row. split; [reflexivity|]. unfold g in Egt. rewrite Hf1, Hf2, HB in Egt.
+      destruct (box_ok p B); [|discriminate].
+      eapply opt_all_nth; [exact Egt|].
+      erewrite map_nth_error by exact Hp. unfold sep. rewrite Hx1, Hx2. reflexivity.
+    - exfalso. clear - E Hg. revert out i E Hg. generalize (map g times) as l.
+      induction l as [|o l IH]; intros out i E Hn; [destruct i; discriminate|].
+      cbn [opt_all] in E. destruct o as [y|].
+      + destruct (opt_all l) eqn:El; [|discriminate]. destruct i; [discriminate|]. eapply IH; [reflexivity | exact Hn].
+      + discriminate. }
+  destruct Hgt as (row & Eg & Hrow). exists row. split; [|exact Hrow].
+  eapply opt_all_nth; [exact E|]. rewrite Hg, Eg. reflexivity.
+Qed.
+
+(* ------------------------------------------------------------------ non-vacuity *)
+Lemma example_ortho :
+  let B := mkbox (3072, 0, 0) (0, 4000, 0) (0, 0, 2900) in
+  ortho_pos B /\ strict_region B (path_disp POrthoSSE B (40000, -51234, 30011)).
+Proof. cbv zeta. split; [split; reflexivity|]. vm_compute. repeat split; reflexivity. Qed.
+
+Lemma example_hyps :
+  let B := mkbox (3072, 0, 0) (5120, 3000, 0) (-7000, 8100, 2900) in
+  let r := (117204, -30050, -28940) in
+  lower_tri_pos B /\ tie_free rnd_haz B r /\
+  (exists n, below_half_widths B (vadd r (comb B n))) /\
+  is_orthob B = false /\ path_disp PTricCpp B r = (100, -50, 60) /\ path_disp PTricNp B r = (100, -50, 60).
+Proof.
+  cbv zeta. split; [split; reflexivity|]. split; [vm_compute; repeat split; reflexivity|].
+  split; [exists (13, -17, 10); vm_compute; repeat split; reflexivity|].
+  repeat split; vm_compute; reflexivity.
 Qed.
